@@ -128,7 +128,7 @@ static int numeric(unsigned seed, int count)
     for (int c = 0; c < count; c++) {
         int n      = dims[c % 10];
         bool cyc   = (c / 10) % 2;
-        int kind   = (c / 20) % 4; // 0 diag dominant, 1 zero sub-diagonals sprinkled, 2 symmetric scaling 1e-5..1e5, 3 nearly singular SPD (laplacian + eps)
+        int kind   = (c / 20) % 5; // 0 diag dominant, 1 zero sub-diagonals sprinkled, 2 symmetric scaling 1e-5..1e5, 3 nearly singular SPD (laplacian + eps), 4 whole system scaled by 1e-20..1e20
         std::vector<double> dg(n), sb(n > 1 ? n - 1 : 0), sc(n, 1.0);
         double corner = cyc ? U(gen) : 0.0;
         for (int i = 0; i < n - 1; i++)
@@ -148,6 +148,11 @@ static int numeric(unsigned seed, int count)
         if (kind == 2)
             for (int i = 0; i < n; i++)
                 sc[i] = pow(10.0, 5.0 * U(gen));
+        if (kind == 4) { // the factorisation is scale invariant: A and b scaled by the same (possibly tiny) factor
+            double s = pow(10.0, 10.0 * U(gen));
+            for (int i = 0; i < n; i++)
+                sc[i] = s;
+        }
         // A' = S A S
         auto Ad = [&](int i) { return dg[i] * sc[i] * sc[i]; };
         auto As = [&](int i) { return sb[i] * sc[i] * sc[i + 1]; };
